@@ -33,7 +33,8 @@ Record mstate := {
   ms_evidx : N;
   ms_calls : list (N * N);
   ms_fuzzy_bytes : bool; ms_fuzzy_calls : bool;
-  ms_offered : N; ms_maxq : N }.
+  ms_offered : N; ms_maxq : N;
+  ms_log : option (N * N * N) }.             (* the accepted dirty log: file, window offset, window length *)
 
 Definition sbyte (s : mstate) (f off : N) : N :=
   match find (fun t => (fst (fst t) =? f) && (snd (fst t) =? off)) (ms_bytes s) with Some t => snd t | None => 0 end.
@@ -48,23 +49,23 @@ Fixpoint mupd {A} (l : list A) (i : nat) (x : A) : list A :=
 Definition set_table (s : mstate) (t : list (list N)) : mstate :=
   {| ms_table := t; ms_changes := ms_changes s + 1; ms_bytes := ms_bytes s; ms_rings := ms_rings s; ms_acked := ms_acked s;
      ms_evidx := ms_evidx s; ms_calls := ms_calls s; ms_fuzzy_bytes := ms_fuzzy_bytes s; ms_fuzzy_calls := ms_fuzzy_calls s;
-     ms_offered := ms_offered s; ms_maxq := ms_maxq s |}.
+     ms_offered := ms_offered s; ms_maxq := ms_maxq s; ms_log := ms_log s |}.
 Definition set_bytes (s : mstate) (b : list (N * N * N)) (fuzzy : bool) : mstate :=
   {| ms_table := ms_table s; ms_changes := ms_changes s; ms_bytes := b; ms_rings := ms_rings s; ms_acked := ms_acked s;
      ms_evidx := ms_evidx s; ms_calls := ms_calls s; ms_fuzzy_bytes := fuzzy; ms_fuzzy_calls := ms_fuzzy_calls s;
-     ms_offered := ms_offered s; ms_maxq := ms_maxq s |}.
+     ms_offered := ms_offered s; ms_maxq := ms_maxq s; ms_log := ms_log s |}.
 Definition set_mrings (s : mstate) (r : list mring) : mstate :=
   {| ms_table := ms_table s; ms_changes := ms_changes s; ms_bytes := ms_bytes s; ms_rings := r; ms_acked := ms_acked s;
      ms_evidx := ms_evidx s; ms_calls := ms_calls s; ms_fuzzy_bytes := ms_fuzzy_bytes s; ms_fuzzy_calls := ms_fuzzy_calls s;
-     ms_offered := ms_offered s; ms_maxq := ms_maxq s |}.
+     ms_offered := ms_offered s; ms_maxq := ms_maxq s; ms_log := ms_log s |}.
 Definition set_feat (s : mstate) (acked : list N) (ev : N) : mstate :=
   {| ms_table := ms_table s; ms_changes := ms_changes s; ms_bytes := ms_bytes s; ms_rings := ms_rings s; ms_acked := acked;
      ms_evidx := ev; ms_calls := ms_calls s; ms_fuzzy_bytes := ms_fuzzy_bytes s; ms_fuzzy_calls := ms_fuzzy_calls s;
-     ms_offered := ms_offered s; ms_maxq := ms_maxq s |}.
+     ms_offered := ms_offered s; ms_maxq := ms_maxq s; ms_log := ms_log s |}.
 Definition set_calls (s : mstate) (c : list (N * N)) (fuzzy : bool) : mstate :=
   {| ms_table := ms_table s; ms_changes := ms_changes s; ms_bytes := ms_bytes s; ms_rings := ms_rings s; ms_acked := ms_acked s;
      ms_evidx := ms_evidx s; ms_calls := c; ms_fuzzy_bytes := ms_fuzzy_bytes s; ms_fuzzy_calls := fuzzy;
-     ms_offered := ms_offered s; ms_maxq := ms_maxq s |}.
+     ms_offered := ms_offered s; ms_maxq := ms_maxq s; ms_log := ms_log s |}.
 
 (* ---- the table as the property describes it ---- *)
 Definition in_guest (r : list N) (a : N) : bool := (g_gpa r <=? a) && (a <? g_gpa r + g_size r).
@@ -139,6 +140,40 @@ Fixpoint nl_eqb (a b : list N) : bool :=
 Definition obs_pairs (l : list val) : option (list (N * N)) :=
   all_some (map (fun v => match v with VL [VN a; VN b] => Some (a, b) | _ => None end) l).
 
+
+(* ---- dirty log (C15): bit (gpa / 4096) of the log, least-significant bit first within each byte ---- *)
+Definition set_log (s : mstate) (l : option (N * N * N)) : mstate :=
+  {| ms_table := ms_table s; ms_changes := ms_changes s; ms_bytes := ms_bytes s; ms_rings := ms_rings s; ms_acked := ms_acked s;
+     ms_evidx := ms_evidx s; ms_calls := ms_calls s; ms_fuzzy_bytes := ms_fuzzy_bytes s; ms_fuzzy_calls := ms_fuzzy_calls s;
+     ms_offered := ms_offered s; ms_maxq := ms_maxq s; ms_log := l |}.
+Definition page_aligned (r : list N) : bool := (g_gpa r mod 4096 =? 0) && (g_size r mod 4096 =? 0).
+Definition get_b (l : list (N * N * N)) (f off : N) : N :=
+  match find (fun t => (fst (fst t) =? f) && (snd (fst t) =? off)) l with Some t => snd t | None => 0 end.
+(* the log bytes expected after the backend wrote guest bytes [a, a+n): determined = whether the write is known
+   to have happened completely *)
+Fixpoint log_marks (t : list (list N)) (log : N * N * N) (a : N) (n : nat) (determined : bool) (acc : list (N * N * N))
+  : list (N * N * N) :=
+  match n with
+  | O => acc
+  | S k =>
+      let '(f, off, len) := log in
+      let page := a / 4096 in
+      let acc1 :=
+        if page / 8 <? len then
+          let old := get_b acc f (off + page / 8) in
+          let aligned := match filter (fun r => in_guest r a) t with [r] => page_aligned r | _ => false end in
+          if determined && aligned && negb (old =? UNKNOWN)
+          then (f, off + page / 8, N.lor old (2 ^ (page mod 8))) :: acc
+          else (f, off + page / 8, UNKNOWN) :: acc
+        else acc in
+      log_marks t log (a + 1) k determined acc1
+  end.
+Definition with_marks (s : mstate) (a : N) (n : nat) (determined : bool) (b : list (N * N * N)) : list (N * N * N) :=
+  match ms_log s with
+  | Some log => log_marks (ms_table s) log a n determined b
+  | None => b
+  end.
+
 Definition m_ok (r : val) : bool :=
   match r with VS "ok" => true | VL (VS "ok" :: _) => true | _ => false end.
 Definition counter (s : mstate) (f : N) : N :=
@@ -163,7 +198,8 @@ Definition mstep (s : mstate) (kind : string) (a : list N) (data : list N) (rl :
     match res with
     | VH h => if ms_fuzzy_bytes s then (0, s)
               else let exp := map (fun i => sbyte s q (arg 1%nat + N.of_nat i)) (seq 0 (N.to_nat (arg 2%nat))) in
-                   ((if bytes_agree exp (hex_bytes h) then 0 else 13), s)
+                   let v := match ms_log s with Some (f, _, _) => if f =? q then 15 else 13 | None => 13 end in
+                   ((if bytes_agree exp (hex_bytes h) then 0 else v), s)
     | _ => (0, s)
     end
   else if String.eqb kind "set_mem_table" then (0, if ok then set_table s rl else s)
@@ -215,12 +251,26 @@ Definition mstep (s : mstate) (kind : string) (a : list N) (data : list N) (rl :
     else
       let n := N.of_nat (List.length data) in
       if ok then
-        if in_one (ms_table s) q n then (0, set_bytes s (spec_put (ms_table s) q data (ms_bytes s)) (ms_fuzzy_bytes s))
+        if in_one (ms_table s) q n
+        then (0, set_bytes s (with_marks s q (List.length data) true (spec_put (ms_table s) q data (ms_bytes s))) (ms_fuzzy_bytes s))
         else if negb (mapped (ms_table s) q) then (13, s)
-        else (0, set_bytes s (spec_put (ms_table s) q (map (fun _ => UNKNOWN) data) (ms_bytes s)) (ms_fuzzy_bytes s))
+        else (0, set_bytes s (with_marks s q (List.length data) false (spec_put (ms_table s) q (map (fun _ => UNKNOWN) data) (ms_bytes s)))
+                           (ms_fuzzy_bytes s))
       else
         (* a failed write may have written a part: those bytes are no longer determined *)
-        (0, set_bytes s (spec_put (ms_table s) q (map (fun _ => UNKNOWN) data) (ms_bytes s)) (ms_fuzzy_bytes s))
+        (0, set_bytes s (with_marks s q (List.length data) false (spec_put (ms_table s) q (map (fun _ => UNKNOWN) data) (ms_bytes s)))
+                      (ms_fuzzy_bytes s))
+  else if String.eqb kind "par_write" then
+    (* concurrent writers: each address is an independent write of the same bytes *)
+    if ms_changes s =? 0 then (0, s)
+    else
+      let n := N.of_nat (List.length data) in
+      let all_in := forallb (fun g => in_one (ms_table s) g n) a in
+      let b := fold_left (fun acc g => if ok && all_in
+                                       then with_marks s g (List.length data) true (spec_put (ms_table s) g data acc)
+                                       else with_marks s g (List.length data) false (spec_put (ms_table s) g (map (fun _ => UNKNOWN) data) acc))
+                         a (ms_bytes s) in
+      ((if ok && existsb (fun g => negb (mapped (ms_table s) g)) a then 13 else 0), set_bytes s b (ms_fuzzy_bytes s))
   else if String.eqb kind "set_vring_num" then
     match ring with
     | Some r =>
@@ -297,6 +347,7 @@ Definition mstep (s : mstate) (kind : string) (a : list N) (data : list N) (rl :
               let nu' := (nu + 1) mod 65536 in
               let b1 := spec_put (ms_table s) slot (le32s (arg 1%nat mod 65536) ++ le32s (arg 2%nat mod 2 ^ 32)) (ms_bytes s) in
               let b2 := spec_put (ms_table s) (u + 2) [nu' mod 256; nu' / 256] b1 in
+              let b2 := with_marks s (u + 2) 2 true (with_marks s slot 8 true b2) in
               let s1 := set_bytes s b2 (ms_fuzzy_bytes s) in
               (0, set_mrings s1 (mupd (ms_rings s1) (N.to_nat q)
                                       {| mr_size := mr_size r; mr_next_avail := mr_next_avail r; mr_next_used := Some nu';
@@ -305,6 +356,7 @@ Definition mstep (s : mstate) (kind : string) (a : list N) (data : list N) (rl :
               let slot := u + 4 + (nu mod mr_size r) * 8 in
               let b1 := spec_put (ms_table s) slot (repeat UNKNOWN 8) (ms_bytes s) in
               let b2 := spec_put (ms_table s) (u + 2) [UNKNOWN; UNKNOWN] b1 in
+              let b2 := with_marks s (u + 2) 2 false (with_marks s slot 8 false b2) in
               let s1 := set_bytes s b2 (ms_fuzzy_bytes s) in
               (0, set_mrings s1 (mupd (ms_rings s1) (N.to_nat q)
                                       {| mr_size := mr_size r; mr_next_avail := mr_next_avail r; mr_next_used := None;
@@ -336,6 +388,13 @@ Definition mstep (s : mstate) (kind : string) (a : list N) (data : list N) (rl :
               else if v =? counter s q then (0, set_calls s ((q, 0) :: ms_calls s) false) else (14, s)
     | _ => (0, s)
     end
+  else if String.eqb kind "set_log_base" then
+    (* a = [size; off; file]: accepted only with page-aligned guest regions and a log covering the highest guest page *)
+    if ok then
+      if forallb (fun r => page_aligned r && (((g_gpa r + g_size r - 1) / 4096) / 8 <? q)) (ms_table s)
+      then (0, set_log s (Some (arg 2%nat, arg 1%nat, q)))
+      else (15, s)
+    else (0, s)
   else if String.eqb kind "set_features" then
     if ok then
       if negb (N.land q (N.lxor (ms_offered s) (2 ^ 64 - 1)) =? 0) then (14, s)      (* accepted only for a subset of the offer *)
@@ -362,4 +421,4 @@ Definition minit (nq maxq offered : N) : mstate :=
   {| ms_table := []; ms_changes := 0; ms_bytes := [];
      ms_rings := repeat {| mr_size := maxq; mr_next_avail := 0; mr_next_used := Some 0; mr_addrs := Some (0, 0, 0); mr_call := Some None |} (N.to_nat nq);
      ms_acked := []; ms_evidx := 0; ms_calls := []; ms_fuzzy_bytes := false; ms_fuzzy_calls := false;
-     ms_offered := offered; ms_maxq := maxq |}.
+     ms_offered := offered; ms_maxq := maxq; ms_log := None |}.
